@@ -13,7 +13,7 @@ def run(tier):
     c = Check("C12", tier)
     spec = os.path.join(ROOT, "specs", "dynbitset")
     exe = build_driver("dynbitset", os.path.join(ROOT, "harness", "dynbitset_driver.cpp"), "asan")
-    cases, ops = (120, 300) if tier == "quick" else (3000, 500)
+    cases, ops = (120, 300) if tier == "quick" else (1600, 500)
     r, edges = c.model(spec, "MCDynBitset", "MCDynBitset_%s.cfg" % tier, must_take=MUST)
     seqs, nedges, nstates, unreach = cover(edges)
     script = os.path.join(c.wd, "script.ndjson")
